@@ -1289,4 +1289,35 @@ example : lastSwitch true [.create .tag 1 .refusedEarly, .setClock 5, .call 1 no
   decide +kernel
 
 
+/-! ## what a delegated stamp can reach -/
+
+/-- the classes in which a member name stamps (some path with a touch) -/
+def stampersOf (f : Mem) : List Cls :=
+  (members.filter fun mb => mb.mem == f && mb.outcomes.any fun o => o.touch != .none).map (·.cls)
+
+def delegatesOk : Bool :=
+  members.all fun mb => mb.foreign.all fun f =>
+    (stampersOf f).all fun c => entityClasses.contains c || c == .Entity || c == .BaseTag ||
+      c == .DimensionLink
+
+/-- whatever a body hands on to another object by one of the names in `foreign` ends in a setter /
+method of an entity class (`Entity` and `BaseTag` are the bases the kinds inherit from) or of the
+`DimensionLink`: a delegated stamp is that object's OWN entry of the table (`C19_touch_targets`: it
+stamps itself, the link the data object it points to) - e.g. `section[name] = v` can stamp a Property
+only, a linked dimension's `label` a DataArray or, through the link, the linked data object -/
+theorem C19_delegates_are_entity_members (mb : Member) (hmb : mb ∈ members) (f : Mem) (hf : f ∈ mb.foreign)
+    (c : Cls) (hc : c ∈ stampersOf f) :
+    c ∈ entityClasses ∨ c = .Entity ∨ c = .BaseTag ∨ c = .DimensionLink := by
+  have hall : delegatesOk = true := by decide +kernel
+  have h := (List.all_eq_true.mp ((List.all_eq_true.mp ((List.all_eq_true.mp hall) mb hmb)) f hf)) c hc
+  simp only [Bool.or_eq_true, beq_iff_eq, List.contains_iff_mem] at h
+  rcases h with ((h | h) | h) | h
+  · exact .inl h
+  · exact .inr (.inl h)
+  · exact .inr (.inr (.inl h))
+  · exact .inr (.inr (.inr h))
+
+example : stampersOf .m_values = [.Property] ∧ stampersOf .m_label = [.DataArray, .DimensionLink] ∧
+    stampersOf .m_position = [.Tag] := by decide +kernel
+
 end Nix.C19
